@@ -1195,18 +1195,19 @@ impl Server {
 
             let mut bytes = BytesMut::new();
 
-            if should_send_parse_to_server {
-                let parse_bytes: BytesMut = parse.try_into()?;
-                bytes.extend_from_slice(&parse_bytes);
-            }
-
             // If we evict something, we need to close it on the server
-            // We do this by adding it to the messages we're sending to the server before the sync
+            // We do this by adding it to the messages we're sending to the server before the sync,
+            // ahead of the Parse: if that one fails, the server skips what follows it.
             if let Some(evicted_name) = self.add_prepared_statement_to_cache(&parse.name) {
                 self.remove_prepared_statement_from_cache(&evicted_name);
                 let close_bytes: BytesMut = Close::new(&evicted_name).try_into()?;
                 bytes.extend_from_slice(&close_bytes);
             };
+
+            if should_send_parse_to_server {
+                let parse_bytes: BytesMut = parse.try_into()?;
+                bytes.extend_from_slice(&parse_bytes);
+            }
 
             // If we have a parse or close we need to send to the server, send them and sync
             if !bytes.is_empty() {
